@@ -348,3 +348,465 @@ Proof.
   apply andb_prop in Hn. destruct Hn as [Hn1 Hn2]. rewrite Hn2, Hv.
   destruct (fst h); [discriminate Hn1|reflexivity].
 Qed.
+
+(* ================================================================== *)
+(** * Composition: the whole message written for an accepted list *)
+
+Lemma forallb_app' {A} (p : A -> bool) l1 l2 : forallb p (l1 ++ l2) = forallb p l1 && forallb p l2.
+Proof. apply forallb_app. Qed.
+
+(** ** splitting the request line *)
+Lemma split_on_nosep d a :
+  forallb (fun b => negb (b =? d)) a = true -> split_on d a = [a].
+Proof.
+  induction a as [|b a IH]; intros H; [reflexivity|].
+  cbn [forallb] in H. apply andb_prop in H. destruct H as [Hb Ha].
+  cbn [split_on]. rewrite (IH Ha). apply negb_true_iff in Hb. rewrite Hb. reflexivity.
+Qed.
+
+Lemma split_on_app d a r :
+  forallb (fun b => negb (b =? d)) a = true ->
+  split_on d (a ++ d :: r) = a :: split_on d r.
+Proof.
+  induction a as [|b a IH]; intros H.
+  - cbn [app split_on]. destruct (split_on d r) eqn:E.
+    + exfalso. clear -E. destruct r as [|x r]; cbn in E; [discriminate|].
+      destruct (split_on d r); [discriminate|]. destruct (x =? d); discriminate.
+    + rewrite N.eqb_refl. reflexivity.
+  - cbn [forallb] in H. apply andb_prop in H. destruct H as [Hb Ha].
+    cbn [app split_on]. rewrite (IH Ha). apply negb_true_iff in Hb. rewrite Hb. reflexivity.
+Qed.
+
+Definition no_sp (v : list N) : bool := forallb (fun b => negb (b =? 32)) v.
+
+Lemma target_no_sp v : forallb (fun b => (33 <=? b) && negb (b =? 127)) v = true -> no_sp v = true.
+Proof.
+  unfold no_sp. apply forallb_impl. intros b H. apply andb_prop in H. destruct H as [H _].
+  apply N.leb_le in H. apply negb_true_iff. apply N.eqb_neq. lia.
+Qed.
+
+Lemma tchar_no_sp v : forallb is_tchar v = true -> no_sp v = true.
+Proof.
+  unfold no_sp. apply forallb_impl. intros b H.
+  destruct (b =? 32) eqn:E; [apply N.eqb_eq in E; subst; discriminate H|reflexivity].
+Qed.
+
+Lemma target_line_byte v : forallb (fun b => (33 <=? b) && negb (b =? 127)) v = true -> forallb line_byte v = true.
+Proof.
+  apply forallb_impl. intros b H. apply andb_prop in H. destruct H as [H _]. apply N.leb_le in H.
+  unfold line_byte. apply andb_true_intro. split; apply negb_true_iff; apply N.eqb_neq; lia.
+Qed.
+
+Lemma request_line_split m p :
+  no_sp m = true -> no_sp p = true ->
+  split_sp (m ++ [32] ++ p ++ B " HTTP/1.1"%string) = [m; p; B "HTTP/1.1"%string].
+Proof.
+  intros Hm Hp. unfold split_sp. cbn [app].
+  rewrite (split_on_app 32 m _ Hm).
+  change (B " HTTP/1.1"%string) with (32 :: B "HTTP/1.1"%string).
+  rewrite (split_on_app 32 p _ Hp). rewrite split_on_nosep by reflexivity. reflexivity.
+Qed.
+
+(** ** OWS trimming leaves clean tokens alone *)
+Lemma ltrim_id v : (match v with b :: _ => negb (is_ws b) | [] => true end) = true -> ltrim v = v.
+Proof. destruct v as [|b v]; [reflexivity|]. cbn. intros H. apply negb_true_iff in H. rewrite H. reflexivity. Qed.
+
+Lemma rtrim_no_ws v : forallb (fun b => negb (is_ws b)) v = true -> rtrim v = v.
+Proof.
+  induction v as [|b v IH]; [reflexivity|]. cbn [forallb rtrim]. intros H. apply andb_prop in H. destruct H as [Hb Hv].
+  rewrite (IH Hv). apply negb_true_iff in Hb. destruct v; [rewrite Hb|]; reflexivity.
+Qed.
+
+Lemma trim_ows_no_ws v : forallb (fun b => negb (is_ws b)) v = true -> trim_ows v = v.
+Proof.
+  intros H. unfold trim_ows. rewrite ltrim_id; [apply rtrim_no_ws; exact H|].
+  destruct v as [|b v]; [reflexivity|]. cbn [forallb] in H. apply andb_prop in H. apply H.
+Qed.
+
+Lemma digits_no_ws v : forallb is_digit v = true -> forallb (fun b => negb (is_ws b)) v = true.
+Proof.
+  apply forallb_impl. intros b H. unfold is_digit in H. apply andb_prop in H. destruct H as [H1 _]. apply N.leb_le in H1.
+  unfold is_ws. apply negb_true_iff. apply orb_false_intro; apply N.eqb_neq; lia.
+Qed.
+
+Lemma target_no_ws v : forallb (fun b => (33 <=? b) && negb (b =? 127)) v = true -> forallb (fun b => negb (is_ws b)) v = true.
+Proof.
+  apply forallb_impl. intros b H. apply andb_prop in H. destruct H as [H _]. apply N.leb_le in H.
+  unfold is_ws. apply negb_true_iff. apply orb_false_intro; apply N.eqb_neq; lia.
+Qed.
+
+(** ** [values_of] *)
+Lemma values_of_app n l1 l2 : values_of n (l1 ++ l2) = values_of n l1 ++ values_of n l2.
+Proof. unfold values_of. rewrite filter_app, map_app. reflexivity. Qed.
+
+Lemma values_of_trim n l :
+  values_of n (map (fun h => (fst h, trim_ows (snd h))) l) = map trim_ows (values_of n l).
+Proof.
+  unfold values_of. induction l as [|h t IH]; [reflexivity|]. cbn [map filter fst].
+  destruct (eq_nc (fst h) n); cbn [map snd]; rewrite IH; reflexivity.
+Qed.
+
+(** ** invariant of the decode loop about framing-relevant fields *)
+Definition n_host := B "host"%string.
+Definition n_te := B "transfer-encoding"%string.
+Definition n_cl := B "content-length"%string.
+
+Definition cl_invb (len : option N) (l : list (list N)) : bool :=
+  match len, l with
+  | None, [] => true
+  | Some n, [v] => negb (is_nil v) && forallb is_digit v && (dec_value 0 v =? n)
+  | _, _ => false
+  end.
+
+Definition hinv_of (items : list item) (len : option N) : bool :=
+  let hd := headers_of items in
+  forallb field_ok hd && is_nil (values_of n_host hd) && is_nil (values_of n_te hd) &&
+  cl_invb len (values_of n_cl hd).
+
+Definition hinv (s : hstate) : bool := hinv_of (h_items s) (h_len s).
+
+Lemma hinv_cookies items len : hinv_of (items ++ [ICookies]) len = hinv_of items len.
+Proof. unfold hinv_of. rewrite headers_of_app'. cbn [headers_of]. rewrite app_nil_r. reflexivity. Qed.
+
+Lemma conn_specific_false_te k : conn_specific k = false -> eq_nc k n_te = false.
+Proof.
+  unfold conn_specific. intros H. apply orb_false_elim in H. destruct H as [H _]. apply orb_false_elim in H.
+  destruct H as [H _]. apply orb_false_elim in H. destruct H as [_ H]. exact H.
+Qed.
+
+Lemma invalid_false_not_te k v : invalid_h2_header k v = false -> eq_nc k n_te = false.
+Proof.
+  unfold invalid_h2_header. destruct k as [|b0 k]; [discriminate|]. intros H.
+  apply orb_false_elim in H. destruct H as [H _]. apply orb_false_elim in H. destruct H as [H _].
+  apply orb_false_elim in H. destruct H as [_ H]. apply conn_specific_false_te. exact H.
+Qed.
+
+Lemma hinv_push_other items len k v :
+  hinv_of items len = true -> field_ok (k, v) = true ->
+  eq_nc k n_host = false -> eq_nc k n_te = false -> eq_nc k n_cl = false ->
+  hinv_of (items ++ [IH (k, v)]) len = true.
+Proof.
+  unfold hinv_of. intros H Hf Hh Ht Hc. rewrite headers_of_app'. cbn [headers_of].
+  rewrite forallb_app', !values_of_app. unfold values_of at 2 4 6. cbn [filter fst map]. rewrite Hh, Ht, Hc.
+  cbn [map]. rewrite !app_nil_r. cbn [forallb]. rewrite Hf.
+  apply andb_prop in H. destruct H as [H H4]. apply andb_prop in H. destruct H as [H H3].
+  apply andb_prop in H. destruct H as [H1 H2]. rewrite H1, H2, H3, H4. reflexivity.
+Qed.
+
+Lemma hinv_push_cl items k v :
+  hinv_of items None = true -> field_ok (k, v) = true ->
+  eq_nc k n_cl = true -> is_nil v = false -> forallb is_digit v = true ->
+  hinv_of (items ++ [IH (k, v)]) (Some (dec_value 0 v)) = true.
+Proof.
+  unfold hinv_of. intros H Hf Hc Hn Hd. rewrite headers_of_app'. cbn [headers_of].
+  assert (Hh : eq_nc k n_host = false).
+  { destruct (eq_nc k n_host) eqn:E; [|reflexivity].
+    rewrite (C13.Proofs.eq_nc_congr k n_host _ E) in Hc. discriminate Hc. }
+  assert (Ht : eq_nc k n_te = false).
+  { destruct (eq_nc k n_te) eqn:E; [|reflexivity].
+    rewrite (C13.Proofs.eq_nc_congr k n_te _ E) in Hc. discriminate Hc. }
+  rewrite forallb_app', !values_of_app. unfold values_of at 2 4 6. cbn [filter fst map snd]. rewrite Hh, Ht, Hc.
+  cbn [map snd]. rewrite !app_nil_r. cbn [forallb]. rewrite Hf.
+  apply andb_prop in H. destruct H as [H H4]. apply andb_prop in H. destruct H as [H H3].
+  apply andb_prop in H. destruct H as [H1 H2]. rewrite H1, H2, H3. cbn [andb].
+  unfold cl_invb in H4. destruct (values_of n_cl (headers_of items)); [|discriminate].
+  cbn [app cl_invb]. rewrite Hn, Hd, N.eqb_refl. reflexivity.
+Qed.
+
+Lemma step_hinv s kv : hinv s = true -> hinv (step s kv) = true.
+Proof.
+  intros H. unfold step. destruct (h_invalid s); [exact H|]. destruct kv as [k v].
+  destruct (invalid_h2_header k v) eqn:Ev; [exact H|].
+  unfold hinv in *.
+  repeat (case_if; cbn [h_items h_len set_invalid]; try exact H);
+    try (destruct (store_pseudo _ _ _); cbn [h_items h_len set_invalid]; exact H);
+    try (destruct (h_host s); cbn [h_items h_len]; exact H);
+    try (rewrite hinv_cookies; exact H).
+  - (* content-length *)
+    apply orb_false_elim in Heqb7. destruct Heqb7 as [Hn Hd]. apply negb_false_iff in Hd.
+    destruct (h_len s) as [m|] eqn:El.
+    + destruct (negb (m =? dec_value 0 v)) eqn:Em; cbn [h_items h_len set_invalid]; [rewrite El; exact H|].
+      apply negb_false_iff in Em. apply N.eqb_eq in Em. subst m. exact H.
+    + cbn [h_items h_len]. apply hinv_push_cl; try assumption.
+      apply valid_regular_field_ok; assumption.
+  - apply hinv_push_other; try assumption.
+    + apply valid_regular_field_ok; assumption.
+    + apply (invalid_false_not_te k v Ev).
+Qed.
+
+Lemma fold_hinv hs s : hinv s = true -> hinv (fold_left step hs s) = true.
+Proof.
+  revert s. induction hs as [|kv t IH]; intros s H; [exact H|]. cbn [fold_left]. apply IH. apply step_hinv. exact H.
+Qed.
+
+(** ** the Cookie line rebuilt from the crumbs *)
+Definition crumb_ok (c : header) : bool := forallb is_vbyte (fst c) && forallb is_vbyte (snd c).
+
+Section Forall.
+  Variable P : N -> bool.
+
+  Lemma split_on_forall d s : forallb P s = true -> forallb (forallb P) (split_on d s) = true.
+  Proof.
+    induction s as [|b s IH]; intros H; [reflexivity|].
+    cbn [forallb] in H. apply andb_prop in H. destruct H as [Hb Hs]. specialize (IH Hs).
+    cbn [split_on]. destruct (split_on d s) as [|cur rest]; [reflexivity|].
+    cbn [forallb] in IH. apply andb_prop in IH. destruct IH as [Hc Hr].
+    destruct (b =? d); cbn [forallb]; rewrite ?Hb, ?Hc, ?Hr; reflexivity.
+  Qed.
+
+  Lemma ltrim_forall s : forallb P s = true -> forallb P (ltrim s) = true.
+  Proof.
+    induction s as [|b s IH]; intros H; [reflexivity|]. cbn [ltrim]. destruct (is_ws b); [|exact H].
+    cbn [forallb] in H. apply andb_prop in H. apply IH, H.
+  Qed.
+
+  Lemma rtrim_forall s : forallb P s = true -> forallb P (rtrim s) = true.
+  Proof.
+    induction s as [|b s IH]; intros H; [reflexivity|]. cbn [forallb] in H. apply andb_prop in H. destruct H as [Hb Hs].
+    cbn [rtrim]. specialize (IH Hs). destruct (rtrim s) as [|x t].
+    - destruct (is_ws b); cbn [forallb]; rewrite ?Hb; reflexivity.
+    - cbn [forallb] in *. rewrite Hb, IH. reflexivity.
+  Qed.
+
+  Lemma span_forall q s :
+    forallb P s = true -> forallb P (fst (span q s)) = true /\ forallb P (snd (span q s)) = true.
+  Proof.
+    induction s as [|b s IH]; intros H; [split; reflexivity|].
+    cbn [forallb] in H. apply andb_prop in H. destruct H as [Hb Hs]. destruct (IH Hs) as [H1 H2].
+    cbn [span]. destruct (q b).
+    - destruct (span q s) as [a r]. cbn [fst snd forallb] in *. rewrite Hb, H1, H2. split; reflexivity.
+    - cbn [fst snd forallb]. rewrite Hb, Hs. split; reflexivity.
+  Qed.
+End Forall.
+
+Lemma crumb_h2_ok s : forallb is_vbyte s = true -> crumb_ok (crumb_h2 s) = true.
+Proof.
+  intros H. unfold crumb_h2, crumb_ok.
+  destruct (span_forall is_vbyte (fun b => negb (b =? 61)) s H) as [H1 H2].
+  destruct (span (fun b => negb (b =? 61)) s) as [k r]. cbn [fst snd] in *.
+  destruct r as [|x v]; cbn [fst snd].
+  - rewrite H. reflexivity.
+  - cbn [forallb] in H2. apply andb_prop in H2. destruct H2 as [_ H2]. rewrite H1, H2. reflexivity.
+Qed.
+
+Lemma crumbs_h2_ok v : forallb is_vbyte v = true -> forallb crumb_ok (crumbs_h2 v) = true.
+Proof.
+  intros H. unfold crumbs_h2. pose proof (split_on_forall is_vbyte 59 v H) as Hs.
+  induction (split_on 59 v) as [|p ps IH]; [reflexivity|].
+  cbn [forallb] in Hs. apply andb_prop in Hs. destruct Hs as [Hp Hps].
+  cbn [map filter]. destruct (trim_ows p) eqn:E; [apply IH; exact Hps|].
+  cbn [map forallb]. rewrite <- E. rewrite (IH Hps), andb_true_r.
+  apply crumb_h2_ok. unfold trim_ows. apply rtrim_forall, ltrim_forall. exact Hp.
+Qed.
+
+Lemma join_crumbs_ok jar : forallb crumb_ok jar = true -> forallb is_vbyte (join_crumbs jar) = true.
+Proof.
+  induction jar as [|[k v] t IH]; intros H; [reflexivity|].
+  cbn [forallb] in H. apply andb_prop in H. destruct H as [Hc Ht]. unfold crumb_ok in Hc. cbn [fst snd] in Hc.
+  apply andb_prop in Hc. destruct Hc as [Hk Hv]. specialize (IH Ht).
+  cbn [join_crumbs]. destruct t as [|c t'].
+  - rewrite !forallb_app'. rewrite Hk, Hv. reflexivity.
+  - rewrite !forallb_app'. rewrite Hk, Hv, IH. reflexivity.
+Qed.
+
+Definition jar_ok (s : hstate) : bool := forallb crumb_ok (h_jar s).
+
+Lemma step_jar_ok s kv : jar_ok s = true -> jar_ok (step s kv) = true.
+Proof.
+  intros H. unfold step. destruct (h_invalid s); [exact H|]. destruct kv as [k v].
+  destruct (invalid_h2_header k v) eqn:Ev; [exact H|]. unfold jar_ok in *.
+  repeat (case_if; cbn [h_jar set_invalid]; try exact H);
+    try (destruct (store_pseudo _ _ _); cbn [h_jar set_invalid]; exact H);
+    try (destruct (h_host s); cbn [h_jar]; exact H);
+    try (destruct (h_len s); try case_if; cbn [h_jar set_invalid]; exact H).
+  rewrite forallb_app', H. cbn [andb]. apply crumbs_h2_ok. apply bad_value_false_vbytes.
+  unfold invalid_h2_header in Ev. destruct k; [discriminate|]. apply orb_false_elim in Ev. apply Ev.
+Qed.
+
+Lemma fold_jar_ok hs s : jar_ok s = true -> jar_ok (fold_left step hs s) = true.
+Proof.
+  revert s. induction hs as [|kv t IH]; intros s H; [exact H|]. cbn [fold_left]. apply IH. apply step_jar_ok. exact H.
+Qed.
+
+(** the H1 serialiser's field list: the header blocks plus (at most) one Cookie line *)
+Lemma ser_h1_field_ok l b jar :
+  forallb field_ok (headers_of l) = true -> forallb crumb_ok jar = true ->
+  forallb field_ok (ser_h1 l b jar) = true.
+Proof.
+  revert b jar. induction l as [|[h|] t IH]; intros b jar Hl Hj; [reflexivity| |].
+  - cbn [headers_of forallb] in Hl. apply andb_prop in Hl. destruct Hl as [Hh Ht].
+    cbn [ser_h1 forallb]. rewrite Hh. apply IH; assumption.
+  - cbn [headers_of] in Hl. cbn [ser_h1]. destruct b; [|apply IH; [exact Hl|reflexivity]].
+    cbn [forallb]. rewrite (IH false [] Hl eq_refl), andb_true_r.
+    unfold field_ok. cbn [fst snd]. rewrite (join_crumbs_ok jar Hj). reflexivity.
+Qed.
+
+Lemma ser_h1_values n l b jar :
+  eq_nc (B "Cookie"%string) n = false ->
+  values_of n (ser_h1 l b jar) = values_of n (headers_of l).
+Proof.
+  intros Hn. revert b jar. induction l as [|[h|] t IH]; intros b jar; [reflexivity| |].
+  - cbn [ser_h1 headers_of]. unfold values_of in *. cbn [filter]. destruct (eq_nc (fst h) n); cbn [map]; rewrite IH; reflexivity.
+  - cbn [ser_h1 headers_of]. destruct b; [|apply IH].
+    unfold values_of in *. cbn [filter fst]. rewrite Hn. apply IH.
+Qed.
+
+(** ** what [Accept] says about the final state of the decode loop *)
+Definition framing_items (len : option N) (es : bool) : list item :=
+  match len with
+  | Some _ => []
+  | None => if es then [IH (B "Content-Length"%string, B "0"%string)]
+            else [IH (B "Transfer-Encoding"%string, B "chunked"%string)]
+  end.
+
+Lemma accept_inv hs es a :
+  accept_h2 hs es = Accept a ->
+  let s := fold_left step hs h_init in
+  h_method s = Some (a_method a) /\ h_path s = Some (a_path a) /\ h_authority s = Some (a_authority a) /\
+  a_jar a = h_jar s /\ a_items a = h_items s ++ framing_items (h_len s) es /\
+  (es = true -> match h_len s with Some n => n = 0 | None => True end).
+Proof.
+  unfold accept_h2. cbn zeta. set (s := fold_left step hs h_init).
+  destruct (h_path s) as [p|]; [|discriminate].
+  destruct (h_method s) as [m|]; [|discriminate].
+  destruct (h_authority s) as [au|]; [|discriminate].
+  destruct (h_scheme s); [|discriminate].
+  destruct (negb _); [discriminate|].
+  destruct (h_invalid s); [discriminate|].
+  destruct (h_host_conflict s); [discriminate|].
+  destruct (match h_host s with Some h => negb (host_matches_authority h au) | None => false end); [discriminate|].
+  destruct (es && match h_len s with Some n => 0 <? n | None => false end) eqn:E; [discriminate|].
+  intros H. injection H as <-. cbn [a_method a_path a_authority a_jar a_items].
+  repeat split; try reflexivity.
+  intros ->. cbn [andb] in E. destruct (h_len s) as [n|]; [|exact I].
+  apply N.ltb_ge in E. lia.
+Qed.
+
+(** ** the theorem *)
+Definition trimv (h : header) : header := (fst h, trim_ows (snd h)).
+
+Definition written_fields (a : accepted) : list header :=
+  (B "Host"%string, a_authority a) :: ser_h1 (a_items a) (negb (is_nil (a_jar a))) (a_jar a).
+
+Lemma serialize_h1_shape a rest :
+  serialize_h1 a ++ rest =
+  (a_method a ++ [32] ++ a_path a ++ B " HTTP/1.1"%string) ++ crlf ++
+  flat_map line_of (written_fields a) ++ crlf ++ rest.
+Proof.
+  unfold serialize_h1, written_fields. cbn [flat_map].
+  assert (E : forall x R, B "Host: "%string ++ x ++ crlf ++ R = line_of (B "Host"%string, x) ++ R).
+  { intros x R. unfold line_of. cbn [fst snd]. change (B "Host: "%string) with (B "Host"%string ++ B ": "%string).
+    rewrite !app_assoc_reverse. reflexivity. }
+  destruct (a_jar a); cbn [is_nil negb]; rewrite !app_assoc_reverse; rewrite E; reflexivity.
+Qed.
+
+Lemma h2_head_read hs es a fuel rest :
+  accept_h2 hs es = Accept a ->
+  (List.length (written_fields a) < fuel)%nat ->
+  let fr := match h_len (fold_left step hs h_init) with
+            | Some n => FLen n
+            | None => if es then FLen 0 else FChunked end in
+  take_line (serialize_h1 a ++ rest) =
+    Some (a_method a ++ [32] ++ a_path a ++ B " HTTP/1.1"%string,
+          flat_map line_of (written_fields a) ++ crlf ++ rest) /\
+  split_sp (a_method a ++ [32] ++ a_path a ++ B " HTTP/1.1"%string) = [a_method a; a_path a; B "HTTP/1.1"%string] /\
+  read_headers fuel (flat_map line_of (written_fields a) ++ crlf ++ rest) =
+    Some (map trimv (written_fields a), rest) /\
+  values_of n_host (map trimv (written_fields a)) = [a_authority a] /\
+  framing_of (map trimv (written_fields a)) = Some fr /\
+  (es = true -> fr = FLen 0).
+Proof.
+  intros Hacc Hfuel. cbn zeta.
+  destruct (accepted_line_ok hs es a Hacc) as (Hm & Hmt & Hp & Hau).
+  pose proof (pseudo_ok_no_sp _ Hp) as Hp'. pose proof (pseudo_ok_no_sp _ Hau) as Hau'.
+  destruct (accept_inv hs es a Hacc) as (_ & _ & _ & Hjar & Hitems & Hes).
+  set (s := fold_left step hs h_init) in *.
+  pose proof (fold_hinv hs h_init eq_refl) as Hinv. fold s in Hinv.
+  pose proof (fold_jar_ok hs h_init eq_refl) as Hjok. fold s in Hjok. unfold jar_ok in Hjok.
+  unfold hinv, hinv_of in Hinv.
+  apply andb_prop in Hinv. destruct Hinv as [Hinv Hcl]. apply andb_prop in Hinv. destruct Hinv as [Hinv Hte].
+  apply andb_prop in Hinv. destruct Hinv as [Hfok Hhost].
+  (* every written field is well-formed *)
+  assert (Hfr_ok : forallb field_ok (headers_of (framing_items (h_len s) es)) = true).
+  { unfold framing_items. destruct (h_len s); [reflexivity|]. destruct es; reflexivity. }
+  assert (Hall : forallb field_ok (written_fields a) = true).
+  { unfold written_fields. cbn [forallb]. apply andb_true_intro. split.
+    - unfold field_ok. cbn [fst snd]. apply andb_true_intro. split; [reflexivity|].
+      revert Hau'. apply forallb_impl. intros b Hb. apply andb_prop in Hb. destruct Hb as [H1 H2].
+      apply N.leb_le in H1. apply negb_true_iff in H2. apply N.eqb_neq in H2. unfold is_vbyte.
+      destruct (b =? 9) eqn:E9; [reflexivity|]. cbn [orb].
+      destruct (128 <=? b) eqn:E; [apply orb_true_r|]. apply N.leb_gt in E. rewrite orb_false_r.
+      apply andb_true_intro. split; apply N.leb_le; lia.
+    - apply ser_h1_field_ok; [|rewrite Hjar; exact Hjok].
+      rewrite Hitems, headers_of_app', forallb_app', Hfok, Hfr_ok. reflexivity. }
+  split; [|split; [|split; [|split; [|split]]]].
+  - rewrite serialize_h1_shape. apply take_line_app.
+    rewrite !forallb_app'. rewrite (forallb_impl _ _ _ tchar_line_byte Hmt), (target_line_byte _ Hp'). reflexivity.
+  - apply request_line_split; [apply tchar_no_sp; exact Hmt|apply target_no_sp; exact Hp'].
+  - apply header_block_roundtrip_fuel; assumption.
+  - unfold written_fields. cbn [map]. unfold values_of at 1. cbn [filter fst trimv].
+    change (eq_nc (B "Host"%string) n_host) with true. cbn [map snd].
+    fold (values_of n_host (map trimv (ser_h1 (a_items a) (negb (is_nil (a_jar a))) (a_jar a)))).
+    unfold trimv. rewrite values_of_trim, ser_h1_values by reflexivity.
+    rewrite Hitems, headers_of_app', values_of_app.
+    destruct (values_of n_host (headers_of (h_items s))); [|discriminate Hhost].
+    assert (values_of n_host (headers_of (framing_items (h_len s) es)) = []) as ->.
+    { unfold framing_items. destruct (h_len s); [reflexivity|]. destruct es; reflexivity. }
+    cbn [app map fst snd]. rewrite (trim_ows_no_ws _ (target_no_ws _ Hau')). reflexivity.
+  - unfold framing_of.
+    assert (Hv : forall n, eq_nc (B "Host"%string) n = false -> eq_nc (B "Cookie"%string) n = false ->
+                 values_of n (map trimv (written_fields a)) =
+                 map trim_ows (values_of n (headers_of (h_items s)) ++ values_of n (headers_of (framing_items (h_len s) es)))).
+    { intros n H1 H2. unfold written_fields. cbn [map]. unfold values_of at 1. cbn [filter fst trimv]. rewrite H1.
+      fold (values_of n (map trimv (ser_h1 (a_items a) (negb (is_nil (a_jar a))) (a_jar a)))).
+      unfold trimv. rewrite values_of_trim, ser_h1_values by exact H2.
+      rewrite Hitems, headers_of_app', values_of_app. reflexivity. }
+    rewrite (Hv (B "content-length"%string) eq_refl eq_refl), (Hv (B "transfer-encoding"%string) eq_refl eq_refl).
+    fold n_cl n_te.
+    destruct (values_of n_te (headers_of (h_items s))); [|discriminate Hte].
+    unfold framing_items. destruct (h_len s) as [n|].
+    + cbn [headers_of]. change (values_of n_te []) with (@nil (list N)). change (values_of n_cl []) with (@nil (list N)).
+      rewrite !app_nil_r. cbn [app].
+      unfold cl_invb in Hcl. destruct (values_of n_cl (headers_of (h_items s))) as [|v [|]]; try discriminate Hcl.
+      apply andb_prop in Hcl. destruct Hcl as [Hcl Hn]. apply andb_prop in Hcl. destruct Hcl as [Hne Hd].
+      apply N.eqb_eq in Hn. cbn [map]. rewrite (trim_ows_no_ws _ (digits_no_ws _ Hd)).
+      cbn [forallb all_same]. rewrite Hd, andb_true_r. destruct v; [discriminate Hne|]. cbn [negb andb]. rewrite Hn. reflexivity.
+    + destruct (values_of n_cl (headers_of (h_items s))); [|discriminate Hcl].
+      destruct es; reflexivity.
+  - intros ->. specialize (Hes eq_refl). destruct (h_len s); [subst; reflexivity|reflexivity].
+Qed.
+
+Lemma h2_to_h1_read_request hs es a fuel rest :
+  accept_h2 hs es = Accept a ->
+  (List.length (written_fields a) < fuel)%nat ->
+  exists fr,
+    (es = true -> fr = FLen 0) /\
+    read_request fuel (serialize_h1 a ++ rest) =
+    match fr with
+    | FLen n =>
+      match (if N.of_nat (List.length rest) <? n then None else take_n (N.to_nat n) rest) with
+      | Some (b, r2) => Some (mkreq (a_method a) (a_path a) (a_authority a) (map trimv (written_fields a)) b [], r2)
+      | None => None
+      end
+    | FChunked =>
+      match read_chunks fuel rest with
+      | Some (b, ts, r2) => Some (mkreq (a_method a) (a_path a) (a_authority a) (map trimv (written_fields a)) b ts, r2)
+      | None => None
+      end
+    end.
+Proof.
+  intros Hacc Hfuel.
+  destruct (h2_head_read hs es a fuel rest Hacc Hfuel) as (H1 & H2 & H3 & H4 & H5 & H6).
+  destruct (accepted_line_ok hs es a Hacc) as (Hm & Hmt & Hp & _).
+  eexists. split; [exact H6|].
+  unfold read_request. rewrite H1, H2.
+  assert (Hc : negb (match a_method a with [] => true | _ => false end) && forallb is_tchar (a_method a) &&
+               negb (match a_path a with [] => true | _ => false end) && forallb is_target_byte (a_path a) &&
+               (beq (B "HTTP/1.1"%string) (B "HTTP/1.1"%string) || beq (B "HTTP/1.1"%string) (B "HTTP/1.0"%string)) = true).
+  { unfold pseudo_ok in Hm, Hp. apply andb_prop in Hm. destruct Hm as [Hm1 _].
+    pose proof (pseudo_ok_no_sp _ Hp) as Hp2. apply andb_prop in Hp. destruct Hp as [Hp1 _].
+    rewrite Hm1, Hmt, Hp1. cbn [andb]. unfold is_target_byte. rewrite Hp2. reflexivity. }
+  rewrite Hc. rewrite H3. change (B "host"%string) with n_host. rewrite H4, H5.
+  destruct (match h_len (fold_left step hs h_init) with Some n => FLen n | None => if es then FLen 0 else FChunked end);
+    reflexivity.
+Qed.
